@@ -160,13 +160,14 @@ Proof. destruct c, t; simpl; auto. apply clear_loc_loc. Qed.
 Lemma set_loc1_table u t k s : same_table s (set_loc1 u t k s).
 Proof.
   unfold set_loc1. destruct (zidx u (uidmax s)); [|apply same_table_refl].
+  destruct (negb (live s n)); [apply same_table_refl|].
   destruct t; apply with_loc_table.
 Qed.
 Lemma set_loc1_loc u t k s : Inv_loc s -> ok_loc1 u t k s = 0%Z -> Inv_loc (set_loc1 u t k s).
 Proof.
   unfold set_loc1, ok_loc1, Inv_loc. intros H Hok.
   destruct (zidx u (uidmax s)) as [u'|]; auto.
-  destruct (live s u') eqn:El; simpl in Hok; try discriminate.
+  destruct (live s u') eqn:El; simpl in *; auto.
   apply live_spec in El.
   destruct t as [t'|]; simpl.
   - destruct (k <=? length (erase1 u' (loc s t'))) eqn:Ek; try discriminate.
@@ -300,16 +301,8 @@ Proof.
 Qed.
 Lemma set_name_old_inv old n s : Inv s -> Inv (set_name_old old n s).
 Proof. intro H. unfold set_name_old. destruct (colidx_of_name s old); auto. now apply set_name_at_inv. Qed.
-(* setNameByColIdx does not repair: the new name must not be held by another column *)
-Lemma set_name_col_inv c n s : Inv s -> why_not s (SetNameCol c n) = 0%Z -> Inv (set_name_col c n s).
-Proof.
-  intros H Hok. unfold set_name_col. simpl in Hok. destruct (zidx c (ncol s)) as [c'|]; auto.
-  destruct (mem_name n (remove_nth c' (names s))) eqn:E; try discriminate.
-  apply mem_name_false in E. pose proof H as [[Ha [Hn Hc]] [Hu [Hnm Hl]]].
-  apply Inv_with_names; auto.
-  - now rewrite length_set_nth.
-  - apply NoDup_set_nth_remove; auto. now apply NoDup_remove_nth.
-Qed.
+Lemma set_name_col_inv c n s : Inv s -> Inv (set_name_col c n s).
+Proof. intro H. unfold set_name_col. destruct (zidx c (ncol s)); auto. now apply set_name_at_inv. Qed.
 
 (* ------------------------------------------------------------------ additions *)
 Lemma set_nech0_inv n s : Inv s -> Inv (set_nech0 n s).
@@ -340,13 +333,13 @@ Proof.
     replace (k <=? length (loc s t')) with true by (symmetry; apply Nat.leb_le; lia). reflexivity. }
   rewrite E1. simpl.
   apply IH.
-  - intros t0 x. unfold set_loc1. rewrite Ez. simpl. rewrite !erase1_id by apply Hni.
+  - intros t0 x. unfold set_loc1. rewrite Ez, Hlive by lia. simpl. rewrite !erase1_id by apply Hni.
     destruct (Nat.eqb t0 t').
     + intro Hin. apply In_pad_set in Hin; auto. destruct Hin as [->|Hin]. lia. apply Hlt in Hin. lia.
     + intro Hin. apply Hlt in Hin. lia.
-  - unfold set_loc1. rewrite Ez. unfold uidmax in *. simpl. lia.
-  - intros i Hi. unfold set_loc1. rewrite Ez. unfold live, col_of_uid. simpl. apply (Hlive i). lia.
-  - unfold set_loc1. rewrite Ez. simpl. rewrite Nat.eqb_refl, length_pad_set. lia.
+  - unfold set_loc1. rewrite Ez, Hlive by lia. unfold uidmax in *. simpl. lia.
+  - intros i Hi. unfold set_loc1. rewrite Ez, Hlive by lia. unfold live, col_of_uid. simpl. apply (Hlive i). lia.
+  - unfold set_loc1. rewrite Ez, Hlive by lia. simpl. rewrite Nat.eqb_refl, length_pad_set. lia.
 Qed.
 
 Lemma length_gen_names radix n : length (gen_names radix n) = n.
@@ -477,15 +470,13 @@ Proof.
   - now apply del_name_inv.
   - now apply del_uids_inv.
   - now apply del_by_loc_inv.
-  - unfold set_loc_uid. destruct (zidx u (uidmax s)); auto. now apply set_locs_inv.
+  - unfold set_loc_uid. destruct (zidx u (uidmax s)); auto. destruct (live s n); auto. now apply set_locs_inv.
   - unfold set_loc_col. destruct (zidx c (ncol s)); auto. unfold set_loc_uid.
-    destruct (zidx (oz (uid_of_col s n)) (uidmax s)); auto. now apply set_locs_inv.
+    destruct (zidx (oz (uid_of_col s n)) (uidmax s)); auto. destruct (live s n0); auto. now apply set_locs_inv.
   - now apply set_locs_ids_inv.
   - now apply set_locs_inv.
   - now apply set_locs_inv.
-  - apply set_locs_inv; auto.
-    destruct (ok_locs (set_locs_col_uids cs s) t k clean s =? 0)%Z eqn:E; simpl in Hok.
-    now apply Z.eqb_eq in E. exact Hok.
+  - now apply set_locs_inv.
   - now apply set_locs_ids_inv.
   - eapply Inv_same_table; eauto. apply clear_loc_table. apply clear_loc_loc. apply H.
   - now apply switch_loc_inv.
